@@ -376,7 +376,8 @@ type _tupleIteratorRepr struct {
 	nextIndex  int
 
 	// these are only used in repr.go
-	reprEnd int
+	reprEnd   int
+	reprIndex int // number of entries yielded so far (listpairs)
 }
 
 func (w *_tupleIteratorRepr) Next() (index int64, value datamodel.Node, _ error) {
@@ -404,7 +405,8 @@ type _listpairsIteratorRepr struct {
 	nextIndex  int
 
 	// these are only used in repr.go
-	reprEnd int
+	reprEnd   int
+	reprIndex int // number of entries yielded so far (listpairs)
 }
 
 func (w *_listpairsIteratorRepr) Next() (index int64, value datamodel.Node, _ error) {
@@ -412,7 +414,6 @@ func (w *_listpairsIteratorRepr) Next() (index int64, value datamodel.Node, _ er
 		if w.Done() {
 			return 0, nil, datamodel.ErrIteratorOverread{}
 		}
-		idx := w.nextIndex
 		key, value, err := (*_structIterator)(w).Next()
 		if err != nil {
 			return 0, nil, err
@@ -424,6 +425,10 @@ func (w *_listpairsIteratorRepr) Next() (index int64, value datamodel.Node, _ er
 		if err != nil {
 			return 0, nil, err
 		}
+		// The index is the position in the representation list, not the field's position in the struct:
+		// absent fields have no entry.
+		idx := w.reprIndex
+		w.reprIndex++
 		return int64(idx), field, nil
 	}
 }
